@@ -100,6 +100,11 @@ func FindModuleByPrefix(n Node, prefix string) *Module {
 		return nil
 	}
 	mod := RootNode(n)
+	if mod == nil {
+		// n is not part of a module, e.g., it belongs to a text whose
+		// top-level statement was rejected.
+		return nil
+	}
 
 	if prefix == "" || prefix == mod.GetPrefix() {
 		return mod
@@ -107,6 +112,11 @@ func FindModuleByPrefix(n Node, prefix string) *Module {
 
 	for _, i := range mod.Import {
 		if prefix == i.Prefix.Name {
+			if mod.Modules == nil {
+				// mod was never added to a module set, e.g.,
+				// it was rejected while it was loaded.
+				return nil
+			}
 			return mod.Modules.FindModule(i)
 		}
 	}
